@@ -215,7 +215,7 @@ def get_ipv6_addr_by_EUI64(prefix, mac):
     try:
         eui64 = int(netaddr.EUI(mac).eui64())
         prefix = netaddr.IPNetwork(prefix)
-        return netaddr.IPAddress(prefix.first + eui64 ^ (1 << 57))
+        return netaddr.IPAddress(prefix.first + (eui64 ^ (1 << 57)))
     except (ValueError, netaddr.AddrFormatError):
         raise ValueError(_('Bad prefix or mac format for generating IPv6 '
                            'address by EUI-64: %(prefix)s, %(mac)s:')
